@@ -98,6 +98,27 @@ theorem good_addQ (B m a b : Nat) : Good B (addQ m a b) := by unfold addQ; split
 theorem good_subQ (B a b : Nat) : Good B (subQ a b) := by unfold subQ; split <;> simp
 theorem good_mulQ (B m a b : Nat) : Good B (mulQ m a b) := by unfold mulQ; split <;> simp
 
+theorem good_subC {B a b : Nat} (h : b ≤ a) : Good B (subC a b) := by
+  unfold subC; rw [if_pos h]; simp
+theorem subC_ok {a b v : Nat} (h : (subC a b).out = .ok v) : v = a - b ∧ b ≤ a := by
+  unfold subC at h; split at h
+  · cases h; exact ⟨rfl, by assumption⟩
+  · cases h
+theorem good_addC {B m a b : Nat} (h : a + b ≤ m) : Good B (addC m a b) := by
+  unfold addC; rw [if_pos h]; simp
+theorem addC_ok {m a b v : Nat} (h : (addC m a b).out = .ok v) : v = a + b ∧ a + b ≤ m := by
+  unfold addC at h; split at h
+  · cases h; exact ⟨rfl, by assumption⟩
+  · cases h
+theorem good_mulC {B m a b : Nat} (h : a * b ≤ m) : Good B (mulC m a b) := by
+  unfold mulC; rw [if_pos h]; simp
+theorem mulC_ok {m a b v : Nat} (h : (mulC m a b).out = .ok v) : v = a * b ∧ a * b ≤ m := by
+  unfold mulC at h; split at h
+  · cases h; exact ⟨rfl, by assumption⟩
+  · cases h
+theorem good_vecAlloc {B n sz : Nat} (h1 : n * sz ≤ ISIZEMAX) (h2 : n * sz ≤ B) : Good B (vecAlloc n sz) := by
+  unfold vecAlloc; rw [if_neg (by omega)]; exact good_alloc h2
+
 /-! ## the cursor monad -/
 
 /-- cursor invariant: the unread suffix is no longer than the input -/
@@ -575,6 +596,152 @@ theorem NonInc.countBytesChecked (n : Nat) : NonInc (P.countBytesChecked n) := b
   · cases h; exact length_drop_le n s.rest
   · cases h
 
+/-! ### postconditions and minimal consumption -/
+
+/-- every value the reader can produce satisfies `Q` -/
+def PPost {α} (p : P α) (Q : α → Prop) : Prop :=
+  ∀ w s a s', (p w s).out = .ok (a, s') → Q a
+
+theorem PPost.pure {α} {a : α} {Q : α → Prop} (h : Q a) : PPost (Pure.pure a : P α) Q := by
+  intro w s a' s' he; cases he; exact h
+
+theorem PPost.bind {α β} {p : P α} {f : α → P β} {Q1 : α → Prop} {Q : β → Prop}
+    (hp : PPost p Q1) (hf : ∀ a, Q1 a → PPost (f a) Q) : PPost (p >>= f) Q := by
+  intro w s b s' h
+  rw [P.bind_def] at h; unfold P.bind at h
+  split at h
+  · next a s1 k heq => exact hf a (hp w s a s1 (by rw [heq])) w s1 b s' h
+  · cases h
+  · cases h
+
+theorem PPost.trivial {α} (p : P α) : PPost p (fun _ => True) := fun _ _ _ _ _ => True.intro
+
+/-- a step whose value carries no information for the postcondition -/
+theorem PPost.bind_skip {α β} {p : P α} {f : α → P β} {Q : β → Prop}
+    (hf : ∀ a, PPost (f a) Q) : PPost (p >>= f) Q :=
+  PPost.bind (Q1 := fun _ => True) (PPost.trivial p) (fun a _ => hf a)
+
+theorem PPost.map {α β} {p : P α} {f : α → β} {Q : β → Prop} (h : ∀ a, Q (f a)) : PPost (P.map f p) Q :=
+  PPost.bind (p := p) (PPost.trivial p) (fun a _ => PPost.pure (h a))
+
+theorem countGo_length {α} (p : P α) (w : Bytes) :
+    ∀ (n : Nat) (s : St) (pk : Nat) (acc l : List α) (s' : St),
+      (P.countGo p w n s pk acc).out = .ok (l, s') → l.length = n + acc.length := by
+  intro n
+  induction n with
+  | zero =>
+    intro s pk acc l s' h
+    unfold P.countGo at h; cases h; simp
+  | succ n ih =>
+    intro s pk acc l s' h
+    unfold P.countGo at h
+    split at h
+    · next a s1 k heq =>
+      have := ih s1 (max pk k) (a :: acc) l s' h
+      simp only [List.length_cons] at this; omega
+    · cases h
+    · cases h
+
+/-- `count n p` yields exactly `n` elements -/
+theorem PPost.count_length {α} (n : Nat) (p : P α) : PPost (P.count n p) (fun l => l.length = n) := by
+  intro w s l s' h
+  have := countGo_length p w n s 0 [] l s' h
+  simpa using this
+
+/-- on success the reader consumed at least `n` bytes of what was in front of the cursor -/
+def ConsumesN {α} (n : Nat) (p : P α) : Prop :=
+  ∀ w s a s', (p w s).out = .ok (a, s') → s'.rest.length + n ≤ s.rest.length
+
+theorem ConsumesN.of_nonInc {α} {p : P α} (h : NonInc p) : ConsumesN 0 p :=
+  fun w s a s' he => by have := h w s a s' he; omega
+
+theorem ConsumesN.bind {α β} {n m : Nat} {p : P α} {f : α → P β}
+    (hp : ConsumesN n p) (hf : ∀ a, ConsumesN m (f a)) : ConsumesN (n + m) (p >>= f) := by
+  intro w s b s' h
+  rw [P.bind_def] at h; unfold P.bind at h
+  split at h
+  · next a s1 k heq =>
+    have h1 := hp w s a s1 (by rw [heq])
+    have h2 := hf a w s1 b s' h
+    omega
+  · cases h
+  · cases h
+
+theorem ConsumesN.pure {α} (a : α) : ConsumesN 0 (Pure.pure a : P α) := by
+  intro w s a' s' h; cases h; omega
+
+theorem ConsumesN.mono {α} {n m : Nat} {p : P α} (h : ConsumesN n p) (hm : m ≤ n) : ConsumesN m p :=
+  fun w s a s' he => by have := h w s a s' he; omega
+
+theorem ConsumesN.bytes (n : Nat) : ConsumesN n (P.bytes n) := by
+  intro w s a s' h; unfold P.bytes at h
+  simp only at h
+  split at h
+  · next hl =>
+    cases h
+    simp only [List.length_take] at hl
+    simp only [List.length_drop]; omega
+  · cases h
+
+theorem ConsumesN.u8 : ConsumesN 1 P.u8 := by
+  intro w s a s' h; unfold P.u8 at h
+  split at h
+  · next x r hr => cases h; rw [hr]; simp only [List.length_cons]; omega
+  · cases h
+theorem ConsumesN.u16le : ConsumesN 2 P.u16le := by
+  intro w s a s' h; unfold P.u16le at h
+  split at h
+  · next x y r hr => cases h; rw [hr]; simp only [List.length_cons]; omega
+  · cases h
+theorem ConsumesN.u16be : ConsumesN 2 P.u16be := by
+  intro w s a s' h; unfold P.u16be at h
+  split at h
+  · next x y r hr => cases h; rw [hr]; simp only [List.length_cons]; omega
+  · cases h
+theorem ConsumesN.u32le : ConsumesN 4 P.u32le := by
+  intro w s a s' h; unfold P.u32le at h
+  split at h
+  · next x y z t r hr => cases h; rw [hr]; simp only [List.length_cons]; omega
+  · cases h
+theorem ConsumesN.u32be : ConsumesN 4 P.u32be := by
+  intro w s a s' h; unfold P.u32be at h
+  split at h
+  · next x y z t r hr => cases h; rw [hr]; simp only [List.length_cons]; omega
+  · cases h
+
+theorem ConsumesN.map {α β} {n : Nat} {p : P α} {f : α → β} (hp : ConsumesN n p) :
+    ConsumesN n (P.map f p) := by
+  have := ConsumesN.bind (p := p) (f := fun a => (Pure.pure (f a) : P β)) hp (fun a => ConsumesN.pure (f a))
+  exact this
+
+theorem ConsumesN.reprEnum {n : Nat} {p : P Nat} {t : List Nat} (hp : ConsumesN n p) :
+    ConsumesN n (P.reprEnum p t) := by
+  have : ConsumesN (n + 0) (P.reprEnum p t) := by
+    apply ConsumesN.bind (p := p) hp
+    intro v; split
+    · exact ConsumesN.pure _
+    · intro w s a s' h; cases h
+  simpa using this
+
+/-- a successful run from position 0 means the input is at least `n` bytes long -/
+theorem ConsumesN.run_length {α} {n : Nat} {p : P α} (hp : ConsumesN n p) {w : Bytes} {a : α}
+    (h : (P.run p w).out = .ok a) : n ≤ w.length := by
+  unfold P.run at h
+  split at h
+  · next a' s' k heq =>
+    have := hp w ⟨0, w⟩ a' s' (by rw [heq])
+    simp only at this; omega
+  · cases h
+  · cases h
+
+theorem PPost.run {α} {p : P α} {Q : α → Prop} (hp : PPost p Q) {w : Bytes} {a : α}
+    (h : (P.run p w).out = .ok a) : Q a := by
+  unfold P.run at h
+  split at h
+  · next a' s' k heq => cases h; exact hp w ⟨0, w⟩ _ s' (by rw [heq])
+  · cases h
+  · cases h
+
 /-! ### running a reader -/
 
 theorem PGood.run {α} {p : P α} (hp : PGood p) (w : Bytes) : Good (budget w.length) (P.run p w) := by
@@ -593,6 +760,50 @@ theorem PGood.runAt {α} {p : P α} (hp : PGood p) (w : Bytes) (pos : Nat) :
   · next a s k heq => rw [heq] at g2; exact ⟨not_faults_ok _ _, g2⟩
   · next e k heq => rw [heq] at g2; exact ⟨not_faults_fail _ _, g2⟩
   · next x k heq => rw [heq] at g1; exact absurd ⟨x, rfl⟩ g1
+
+/-! ### allocation-free readers (for cursors over derived buffers, where the budget of the
+original input has to be carried over) -/
+
+/-- the reader requests no heap -/
+def PZero {α} (p : P α) : Prop := ∀ w s, (p w s).peak = 0
+
+theorem PZero.pure {α} (a : α) : PZero (Pure.pure a : P α) := fun _ _ => rfl
+theorem PZero.bind {α β} {p : P α} {f : α → P β} (hp : PZero p) (hf : ∀ a, PZero (f a)) :
+    PZero (p >>= f) := by
+  intro w s
+  have h1 := hp w s
+  rw [P.bind_def]; unfold P.bind
+  split
+  · next a s' k heq =>
+    rw [heq] at h1; simp only at h1
+    have h2 := hf a w s'
+    simp only [h1, h2]; rfl
+  · next e k heq => rw [heq] at h1; exact h1
+  · next x k heq => rw [heq] at h1; exact h1
+theorem PZero.u8 : PZero P.u8 := by intro w s; unfold P.u8; split <;> rfl
+theorem PZero.u16le : PZero P.u16le := by intro w s; unfold P.u16le; split <;> rfl
+theorem PZero.u16be : PZero P.u16be := by intro w s; unfold P.u16be; split <;> rfl
+theorem PZero.u32le : PZero P.u32le := by intro w s; unfold P.u32le; split <;> rfl
+theorem PZero.u32be : PZero P.u32be := by intro w s; unfold P.u32be; split <;> rfl
+theorem PZero.u64le : PZero P.u64le := by intro w s; unfold P.u64le; split <;> rfl
+theorem PZero.bytes (n : Nat) : PZero (P.bytes n) := by
+  intro w s; unfold P.bytes; simp only; split <;> rfl
+theorem PZero.skip (n : Nat) : PZero (P.skip n) := fun _ _ => rfl
+theorem PZero.seekStart (n : Nat) : PZero (P.seekStart n) := fun _ _ => rfl
+theorem PZero.map {α β} {p : P α} {f : α → β} (hp : PZero p) : PZero (P.map f p) :=
+  PZero.bind (p := p) hp (fun a => PZero.pure (f a))
+
+/-- an allocation-free good reader is good under every budget, on every buffer -/
+theorem PGood.runAt_zero {α} {p : P α} (hp : PGood p) (hz : PZero p) (w : Bytes) (pos B : Nat) :
+    Good B (P.runAt p w pos) := by
+  obtain ⟨g1, _⟩ := PGood.runAt hp w pos
+  refine ⟨g1, ?_⟩
+  have := hz w ⟨pos, w.drop pos⟩
+  unfold P.runAt
+  split
+  · next a s k heq => rw [heq] at this; simp only at this; simp [this]
+  · next e k heq => rw [heq] at this; simp only at this; simp [this]
+  · next x k heq => rw [heq] at this; simp only at this; simp [this]
 
 /-- assembles `PGood` for a reader written with `do` from the primitives -/
 syntax "pgood_step" : tactic
